@@ -10,7 +10,7 @@ from vlib.core import Failure
 
 PROP = "C06"
 RULE = (
-    "a case is (redirect chain of <= 5 hops over origins http a.test:80 / http b.test:80 / http a.test:8080 / https "
+    "a case is (redirect chain of <= 5 hops, starting at any of the origins, over origins http a.test:80 / http b.test:80 / http a.test:8080 / https "
     "a.test:443, Location forms absolute, upper-case, explicit default port, scheme-relative, path, relative, ../, "
     "?query; entry PoolManager | ProxyManager (forwarding and tunnel) | bare pool; headers = sensitive names "
     "(Authorization / Cookie / Proxy-Authorization / custom) in generated letter casings mixed with 0-3 benign headers, "
@@ -303,6 +303,20 @@ def enum_cases(tier):
                                         hops.append((os_[i], codes[0], fs[(k + i) % len(fs)], os_[i + 1]))
                                     hdrs = [[casing(n, case_bits), "secret-%d" % i] for i, n in enumerate(names)] + BENIGN[:nbenign]
                                     yield {"kind": "cred", "entry": entry, "graph": chain(hops), "mode": mode, "headers": hdrs, "rm": None, "rm_place": None}
+    # chains that START at the https origin (through a ProxyManager: a CONNECT tunnel first, then forwarding), incl. credentials-only header sets
+    for os_ in ([3, 0], [3, 1], [3, 2], [3, 3, 0], [3, 1, 3], [3, 0, 1]):
+        for code in (302, 303, 307):
+            for names in namesets:
+                for mode in MODES:
+                    for entry in ("pm", "proxy"):
+                        for nbenign in (0, 1):
+                            k += 1
+                            hops = []
+                            for i in range(len(os_) - 1):
+                                fs = forms_for(os_[i], os_[i + 1])
+                                hops.append((os_[i], code, fs[(k + i) % len(fs)], os_[i + 1]))
+                            hdrs = [[casing(n, (0, 0xFFFFF, 0b1010101)[k % 3]), "secret-%d" % i] for i, n in enumerate(names)] + BENIGN[:nbenign]
+                            yield {"kind": "cred", "entry": entry, "graph": chain(hops), "mode": mode, "headers": hdrs, "rm": None, "rm_place": None}
     # custom / empty remove_headers_on_redirect
     for rm in ([], ["X-Secret"], ["x-secret", "Authorization"], ["COOKIE"], ["Cookie", "Authorization", "X-SECRET"]):
         for place in ("request", "manager"):
@@ -328,7 +342,7 @@ def _hyp():
     def case(draw):
         entry = draw(st.sampled_from(["pm", "pm", "proxy"]))
         n = draw(st.integers(1, 5))
-        os_ = [0] + [draw(st.integers(0, 3)) for _ in range(n)]
+        os_ = [draw(st.sampled_from([0, 0, 3, 1]))] + [draw(st.integers(0, 3)) for _ in range(n)]
         hops = []
         for i in range(n):
             hops.append((os_[i], draw(st.sampled_from(redirects.CODES)), draw(st.sampled_from(forms_for(os_[i], os_[i + 1]))), os_[i + 1]))
